@@ -539,7 +539,8 @@ def boundary_cases(rng, tier):
     out.append(case(b"0" * (B - 1) + b"255 x", [B - 1, 6], ["u8", "c", "e"]))
     if tier != "quick":
         out.append(case(b"q" * (B + 3) + b" 1", [B + 5], ["s", "u8"]))
-        out.append(case(b"\n" * (B + 2), [B + 2], ["L"]))
+        # many empty lines across the boundary (65538 of them made the model's read_lines quadratic: > 15 min of coqc)
+        out.append(case(b"y" * (B - 40) + b"\n" * 90, [B + 50], ["L"]))
         out.append(case(b" " * (2 * B + 1) + b"5", [2 * B + 2], ["e", "i32", "e"]))
     return out
 
